@@ -157,7 +157,7 @@ def make_history(base, cfg, r, n_commits=None, kind=None):
         con.execute("PRAGMA wal_checkpoint(TRUNCATE)")
         h.snapshots.append(snapshot(con, tables))
     if n_commits is None and kind in ("checkpoint_restart", "restart_after_rollback", "passive_checkpoint", "odd_rowids",
-                                      "wide_schema", "freelist_drain", "deep_append"):
+                                      "wide_schema", "freelist_drain", "deep_append", "ddl"):
         n_commits = r.randint(3, 6)      # these shapes need a few commits to show at all
     n_commits = n_commits if n_commits is not None else r.randint(1, 6)
     wal_size = mx_frame(work)
@@ -211,7 +211,9 @@ def make_history(base, cfg, r, n_commits=None, kind=None):
                 tables[f"e{k}"] = (["z"], False)
             elif step == 1:
                 con.execute(f"CREATE INDEX di{k} ON t0 ({cols[-1]})")
-                # the same transaction changes rows of a one-page table (its root page is the only page rewritten)
+                # the same transaction changes rows of a one-page table (its root page is the only page rewritten):
+                # of the base table when it is still small, and of a table created earlier in the log
+                ins(1)
                 for dt in [t for t in tables if t.startswith("d")][:1]:
                     con.execute(f"INSERT INTO {dt} VALUES (?, ?)", (k + 100, f"with-ddl-{k}"))
                     con.execute(f"UPDATE {dt} SET b = 'changed-with-ddl' WHERE a = 1")
